@@ -169,11 +169,49 @@ func decTokens(f float64) string {
 	return d.Coefficient().String() + " " + strconv.Itoa(int(d.Exponent()))
 }
 
-func tozcnWant(c uint64) float64 {
-	q := new(big.Float).SetPrec(53).SetMode(big.ToNearestEven)
-	q.Quo(new(big.Float).SetPrec(64).SetUint64(c), new(big.Float).SetPrec(64).SetInt(bigTen10))
-	return nearest64(q)
+// nearestRat: the binary64 nearest (ties to even) to the positive rational n/d, by integer arithmetic only
+// (math/big.Int; no big.Float / big.Rat rounding involved). Normal range only (all uses here are ≥ 10^-10).
+func nearestRat(n, d *big.Int) float64 {
+	if n.Sign() == 0 {
+		return 0
+	}
+	// e with 2^52 ≤ n/d·2^-e < 2^53
+	e := n.BitLen() - d.BitLen() - 53
+	scaled := func(e int) (*big.Int, *big.Int) {
+		if e >= 0 {
+			return new(big.Int).Set(n), new(big.Int).Lsh(d, uint(e))
+		}
+		return new(big.Int).Lsh(n, uint(-e)), new(big.Int).Set(d)
+	}
+	two52, two53 := new(big.Int).Lsh(big.NewInt(1), 52), new(big.Int).Lsh(big.NewInt(1), 53)
+	var q, r, dd *big.Int
+	for {
+		var nn *big.Int
+		nn, dd = scaled(e)
+		q, r = new(big.Int).QuoRem(nn, dd, new(big.Int))
+		if q.Cmp(two52) < 0 {
+			e--
+		} else if q.Cmp(two53) >= 0 {
+			e++
+		} else {
+			break
+		}
+	}
+	switch new(big.Int).Lsh(r, 1).Cmp(dd) {
+	case 1:
+		q.Add(q, big.NewInt(1))
+	case 0:
+		if q.Bit(0) == 1 {
+			q.Add(q, big.NewInt(1))
+		}
+	}
+	return math.Ldexp(float64(q.Uint64()), e) // q ≤ 2^53 is exact in float64; Ldexp by a power of two is exact here
 }
+
+func tozcnWant(c uint64) float64 { return nearestRat(bu(c), bigTen10) }
+
+// coinFloatWant: float64(c) as IEEE prescribes (nearest, ties to even)
+func coinFloatWant(c uint64) float64 { return nearestRat(bu(c), big.NewInt(1)) }
 
 //go:noinline
 func rawF2U(f float64) uint64 { return uint64(f) }
@@ -343,7 +381,7 @@ func runC18(ops []string) CaseResult {
 			switch {
 			case a != a, a < 0, math.IsInf(a, 0):
 			default:
-				fc := nearest64(new(big.Float).SetPrec(64).SetUint64(c))
+				fc := coinFloatWant(c)
 				p := nearest64(new(big.Float).SetPrec(2200).Mul(exactFloat(fc), exactFloat(a)))
 				w, okw = floorCoin(p)
 			}
@@ -357,7 +395,7 @@ func runC18(ops []string) CaseResult {
 				}
 				return "ok " + fbits(v)
 			})
-			if want := "ok " + fbits(nearest64(new(big.Float).SetPrec(64).SetUint64(c))); out != want {
+			if want := "ok " + fbits(coinFloatWant(c)); out != want {
 				fail(i, "returned %q, the nearest float64 of the amount is %s", out, want)
 			}
 		case "parse":
@@ -408,7 +446,9 @@ func runC18(ops []string) CaseResult {
 					return "err " + strings.ReplaceAll(err.Error(), " ", "_")
 				}
 				if got := decTokens(z); got != f[2]+" "+f[3] {
-					return "opline-decimal-mismatch " + got
+					// ToZCN did not return the float the generator expected (op tozcn reports that); the round
+					// trip below is still the real one, through the float the code actually produced
+					tags["rt:other-float"] = true
 				}
 				v, err := currency.ParseZCN(z)
 				if err != nil {
@@ -419,15 +459,13 @@ func runC18(ops []string) CaseResult {
 			switch {
 			case out == "panic":
 				fail(i, "panicked")
-			case strings.HasPrefix(out, "opline"):
-				fail(i, "harness: the decimal in the op line is not decimal.NewFromFloat(ToZCN(c)): %s", out)
 			case c > math.MaxInt64:
 				if !strings.HasPrefix(out, "err ") {
 					fail(i, "returned %q for an amount above MaxInt64: an error is required", out)
 				}
 			case sigDigits(c) <= 15:
 				if out != "ok "+strconv.FormatUint(c, 10) {
-					fail(i, "format-then-parse of an amount with %d significant digits returned %q", sigDigits(c), out)
+					fail(i, "format-then-parse of %s ZCN (amount %d, %d significant digits) returned %q instead of the amount", new(big.Rat).SetFrac(bu(c), bigTen10).FloatString(10), c, sigDigits(c), out)
 				}
 				tags["rt:le15"] = true
 			default:
@@ -622,7 +660,74 @@ func rtOp(c uint64) string {
 	return fmt.Sprintf("rt %d %s", c, decTokens(z))
 }
 
+// multipliers used with the rounding-boundary amounts
+func boundaryMultipliers(r *rand.Rand) []float64 {
+	return []float64{1, 3, 0.1, 1.5, randFloat(r)}
+}
+
+// genRoundingBoundary: amounts c ≥ 2^53 whose low bits sit at the rounding boundaries of the 53-bit significand:
+// c = m·2^(e-52) + r, 2^52 ≤ m < 2^53 (both parities), r ∈ {half-1, half, half+1, 1, 2^(e-52)-1}, half = 2^(e-53).
+// A conversion that drops a sticky bit or rounds twice is one ulp off exactly on such operands.
+func genRoundingBoundary(r *rand.Rand, idx int) []string {
+	var ops []string
+	e := uint(53 + (idx/10)%11)
+	sh := e - 52
+	half := uint64(1) << (sh - 1)
+	for k := 0; k < 8; k++ {
+		m := uint64(1)<<52 | (r.Uint64() & (1<<52 - 1))
+		if k%2 == 0 {
+			m &^= 1
+		} else {
+			m |= 1
+		}
+		for _, lo := range []uint64{half - 1, half, half + 1, 1, 1<<sh - 1} {
+			c := m<<sh + lo
+			cs := strconv.FormatUint(c, 10)
+			ops = append(ops, "c2f "+cs, "u2f "+cs)
+			for _, a := range boundaryMultipliers(r) {
+				ops = append(ops, "mulf "+cs+" "+fhex(a))
+			}
+		}
+	}
+	return ops
+}
+
+// genHighCoins: uniformly random amounts ≥ 2^63 (the range where a conversion through int64 needs a special path)
+func genHighCoins(r *rand.Rand) []string {
+	var ops []string
+	for k := 0; k < 100; k++ {
+		cs := strconv.FormatUint(r.Uint64()|1<<63, 10)
+		ops = append(ops, "c2f "+cs, "mulf "+cs+" "+fhex(1), "mulf "+cs+" "+fhex(randFloat(r)))
+	}
+	return ops
+}
+
+// genZcn15: amounts with EXACTLY 15 significant digits in [2^53, 2^63): ToZCN must be the correctly rounded quotient
+// and the round trip must be the identity. A double rounding in ToZCN shows on ≈2.4e-4 of these.
+func genZcn15(r *rand.Rand) []string {
+	var ops []string
+	for len(ops) < 500 {
+		c := uint64(1+r.Intn(9))*100000000000000 + uint64(r.Int63n(10000000000000))*10 + uint64(1+r.Intn(9)) // 15 digits, last ≠ 0
+		for j := 1 + r.Intn(4); j > 0; j-- {
+			c *= 10
+		}
+		if c < 1<<53 || c >= 1<<63 {
+			continue
+		}
+		ops = append(ops, "tozcn "+strconv.FormatUint(c, 10), rtOp(c))
+	}
+	return ops
+}
+
 func genC18(r *rand.Rand, tier string, idx int) []string {
+	switch idx % 10 {
+	case 0, 1, 2, 3:
+		return genZcn15(r)
+	case 4:
+		return genRoundingBoundary(r, idx)
+	case 5:
+		return genHighCoins(r)
+	}
 	var ops []string
 	u := func(v uint64) string { return strconv.FormatUint(v, 10) }
 	for k := 0; k < 40; k++ {
@@ -758,7 +863,7 @@ func exhC18(tier string, emit func(ops []string)) {
 func init() {
 	register(&Suite{
 		Name: "c18",
-		Rule: "boundary tables of DESIGN §6 C18 as full cross products (coins {0,1,2,2^k-1,2^k,2^k+1,√max±1,max,max-1,zero-product pairs} × same, × signed counterparts, × float table {±0,subnormals,2^53±,2^63±ulp,2^64±ulp,1e19,1e30,max,±Inf,NaNs}), ZCN amounts with ≤3/4 significant digits × every exponent, plus random operands (uniform, random bit length, straddling the overflow boundary, 15/16/17-digit amounts); a case is non-trivial when it contains an error outcome, a ZCN parse/round trip or two operands above 10^9",
+		Rule: "boundary tables of DESIGN §6 C18 as full cross products (coins {0,1,2,2^k-1,2^k,2^k+1,√max±1,max,max-1,zero-product pairs} × same, × signed counterparts, × float table {±0,subnormals,2^53±,2^63±ulp,2^64±ulp,1e19,1e30,max,±Inf,NaNs}), ZCN amounts with ≤3/4 significant digits × every exponent, plus generated cases: 40% random amounts with exactly 15 significant digits in [2^53,2^63) (tozcn + round trip, 250 amounts each), 10% amounts at the rounding boundaries of the 53-bit significand (c = m·2^(e-52)+r, e=53..63, r∈{half-1,half,half+1,1,2^(e-52)-1}; c2f and mulf by 1, 3, 0.1, 1.5, random), 10% uniform amounts ≥ 2^63, 40% mixed random operands (uniform, random bit length, straddling the overflow boundary, 15/16/17-digit amounts); a case is non-trivial when it contains an error outcome, a ZCN parse/round trip or two operands above 10^9",
 		Gen:  genC18,
 		Run:  runC18,
 		Exhaustive: func(tier string, emit func(ops []string)) {
@@ -766,9 +871,9 @@ func init() {
 		},
 		DefaultN: func(tier string) int {
 			if tier == "thorough" {
-				return 100000
+				return 30000
 			}
-			return 500
+			return 600
 		},
 	})
 }
